@@ -94,7 +94,7 @@ func c03GenSched(tier string, emit func(c03Case)) {
 				if tier == "quick" && (si+n)%3 != 0 {
 					continue
 				}
-				if tier == "thorough" && (si+n)%2 != 0 {
+				if tier == "thorough" && (si+n)%3 != 0 {
 					continue
 				}
 				reqs := []c03scen.Req{kinds[i], kinds[j]}
